@@ -394,6 +394,7 @@ func genLockRegions(repo string) (genFile, error) {
 	var b strings.Builder
 	b.WriteString("import Vflow.Model.LockIR\n/-! generated by factgen from ipfix/memcache.go, netflow/v9/memcache.go, ipfix/memcache_rpc.go — do not edit -/\nnamespace Vflow.Gen\nopen Vflow.Locks\n\n")
 	var names []string
+	var loadChecks []string
 	for _, src := range []struct {
 		path, prefix string
 		rpc          bool
@@ -429,6 +430,17 @@ func genLockRegions(repo string) (genFile, error) {
 			if !ok || fd.Body == nil || !lkMentions(fset, fd.Body, src.rpc) {
 				continue
 			}
+			// load-time validation (`valid`, called by GetCache before the cache is handed to any other goroutine):
+			// it only compares shard pointers and map headers with nil — no map access, no lock needed. It is
+			// emitted as a fact of its own (exact statement list), not as a lock region.
+			if !src.rpc && fd.Name.Name == "valid" {
+				var sts []string
+				for _, st := range fd.Body.List {
+					sts = append(sts, lkLeanStr(lkSrc(fset, st)))
+				}
+				loadChecks = append(loadChecks, fmt.Sprintf("(%s, [%s])", lkLeanStr(src.prefix+"Valid"), strings.Join(sts, ", ")))
+				continue
+			}
 			rt, rn := lkRecv(fd)
 			f := &lkFunc{fset: fset, rpcFile: src.rpc, vars: map[string]bool{}}
 			name := src.prefix
@@ -457,6 +469,7 @@ func genLockRegions(repo string) (genFile, error) {
 			names = append(names, lkLeanStr(name))
 		}
 	}
+	fmt.Fprintf(&b, "/-- load-time validation functions (run by GetCache before the cache is shared): name and statements -/\ndef loadTimeChecks : List (String × List String) :=\n  [%s]\n\n", strings.Join(loadChecks, ",\n   "))
 	fmt.Fprintf(&b, "/-- every function found in the anchored files that touches the cache -/\ndef lockRegionNames : List String :=\n  [%s]\n\nend Vflow.Gen\n", strings.Join(names, ", "))
 	return genFile{name: "LockRegions", body: b.String()}, nil
 }
